@@ -78,6 +78,9 @@ pub fn gen_sess_run(check: &str, seed: u64, tier: Tier, with_probes: bool) -> Ru
         run.set("nodewise", 1);
     }
     run.set("oracle_seed", (f.next() >> 1) as i64);
+    if tier == Tier::Thorough && f.chance(1, 2) {
+        run.set("checkpoint_every_union", 1);
+    }
     run
 }
 
